@@ -303,10 +303,21 @@ def body_name(name, tag):
 class Server:
     def __init__(self, binary, root):
         self.root = root
-        self.ip, self.qp = free_port(), free_port()
-        self.dr = vlib.Driver(binary, cwd=os.path.join(root, "cwd"), stderr_path=os.path.join(root, "cwd", "stderr.txt"))
-        self.info = self.dr.ok("paths_serve", dir=os.path.join(root, "a", "b", "data") + "/", iport=self.ip, qport=self.qp,
-                               logfile=os.path.join(root, "cwd", "log.txt"))
+        last = None
+        for attempt in range(6):     # the loopback ports are picked by bind(0)+close: another process can grab one in between
+            self.ip, self.qp = free_port(), free_port()
+            self.dr = vlib.Driver(binary, cwd=os.path.join(root, "cwd"), stderr_path=os.path.join(root, "cwd", "stderr.txt"))
+            o = self.dr.cmd("paths_serve", timeout=120, dir=os.path.join(root, "a", "b", "data") + "/", iport=self.ip, qport=self.qp,
+                            logfile=os.path.join(root, "cwd", "log.txt"))
+            if o.get("ok"):
+                self.info = o.get("res")
+                return
+            last = o.get("err") or ""
+            self.dr.quit()
+            if "address already in use" not in last and "did not come up" not in last:
+                break
+            time.sleep(0.2 * (attempt + 1))
+        raise vlib.Infra("driver op paths_serve failed: %s" % last)
 
     def close(self):
         self.dr.quit()
@@ -690,11 +701,13 @@ def run(chk):
             two = rnd.sample(two, min(len(two), 30))
             rest = rnd.sample(rest, min(len(rest), 40))
         elif api in ("bulk-index", "doc-index"):
-            rest = rnd.sample(rest, min(len(rest), 1200))      # each case costs a flush + rotate
+            rest = rnd.sample(rest, min(len(rest), 300))       # each case costs a flush + rotate
         elif api in FIXED_PATH_APIS:
             # the path does not depend on the name; folder_structure.json / usq.json are rewritten on every request (quadratic)
             two = rnd.sample(two, min(len(two), 60))
-            rest = rnd.sample(rest, min(len(rest), 200))
+            rest = rnd.sample(rest, min(len(rest), 150))
+        else:
+            rest = rnd.sample(rest, min(len(rest), 400))       # all names of <= 2 classes, a third of the 3-class names
         tagset = ["raw", "urlenc", "dblenc"]
         for b in one:
             for tag in tagset:
@@ -704,7 +717,7 @@ def run(chk):
                 add(b, tag, 1, lk=rnd.randrange(len(LOOKALIKES)))
         # every class sequence containing a (real or look-alike) dot-dot is also depth-amplified so that it can reach the sentinels
         amp = [b for b in lst if ("up" in b["name"] or "lkup" in b["name"]) and b not in esc]
-        amp = esc + rnd.sample(amp, min(len(amp), 12 if quick else (40 if api in FIXED_PATH_APIS else 400)))
+        amp = esc + rnd.sample(amp, min(len(amp), 12 if quick else (15 if api in FIXED_PATH_APIS else 40)))
         for b in amp:
             for ups in (base + 1, base + 2, base + 3):
                 for tg in (["s", "al", "nw"] if "plain" in b["name"] else [None]):
